@@ -4,7 +4,7 @@ serialize and deserialize per resolution regime, derived from the MIR and compar
 necessary injectivity conditions: distinct marker positions, range guard on the curve position (R5).
 Not decided: the bijection as a theorem over all tuples."""
 from ..terms import fn_terms, fmt, strip_site, walk, is_const, const_int, const_name
-from ..query import (regime_assumptions, returns_under, deep_resolve, is_variant, linear, leaves_under)
+from ..query import (regime_assumptions, returns_under, deep_resolve, is_variant, linear, leaves_under, inline_calls)
 from ..consts import const_py
 from ..run import where
 from .hilbert_common import resolve_promoted
@@ -292,7 +292,9 @@ def run(ctx):
                     good = ico.get(seg) == 1 and len(fq) == 1 and ico[fq[0]] == -1 and ik % 5 == 0 and ik >= 5 and len(ico) == 2
                     if good:
                         # the first quintant must be that of the cell's own face
-                        idx = [x for x in walk(fq[0]) if x[0] == "call" and (x[1].endswith("::index") or x[1].endswith("::get")) and len(x[2]) == 2]
+                        # (an accessor such as `A5Cell::origin(cell)` is read through to the table lookup it performs)
+                        fqt = inline_calls(facts, fq[0])
+                        idx = [x for x in walk(fqt) if x[0] == "call" and (x[1].endswith("::index") or x[1].endswith("::get")) and len(x[2]) == 2]
                         good = len(idx) == 1 and strip_site(unwrap_cast(idx[0][2][1])) == o
                         why += " ; rotation (segment + %d - first_quintant[origin_id]) mod 5" % ik
                 run.inst("C05.R4", "writer-code[%s]" % nm, good, why + " (must be 5*face + (segment - first_quintant[face]) mod 5)", where_ser)
